@@ -104,6 +104,11 @@ def patch_text(isa, lines, fmt="elf", intel=False):
                            else f'.section {name},"dw"')
         elif "l" in ln:
             out.append(f"{ln['l']}:")
+        elif ln.get("k") == "bytes" and ln.get("as") == "ascii":
+            # same bytes, written as a typed directive (the assembler
+            # records an encoding for the block)
+            out.append('.ascii "' + "".join(
+                f"\\{x:03o}" for x in bytes.fromhex(ln["hex"])) + '"')
         elif ln.get("k") == "bytes":
             out.append(".byte " + ", ".join(
                 str(x) for x in bytes.fromhex(ln["hex"])))
